@@ -62,6 +62,7 @@ func main() {
 	genKinds(repo, out, ps)
 	genDecoders(repo, out, ps)
 	genLifecycle(repo, out, ps)
+	genOps(repo, out, ps)
 }
 
 // ---------------------------------------------------------------------------- lock facts
